@@ -27,7 +27,7 @@ RULE = ("one run = 1-3 regular and 1-2 operating-point actors subscribed for rep
         "sequence (kind, actor)")
 QUICK_RUNS = 4000
 THOROUGH_RUNS = 250_000
-EXPECT_PROBES = ["two_component_groups", "bounds_update_between_proposals", "only_regular_changed", "only_op_changed", "partial_failure_result",
+EXPECT_PROBES = ["late_result_of_older_request", "two_component_groups", "bounds_update_between_proposals", "only_regular_changed", "only_op_changed", "partial_failure_result",
                  "error_result", "expiry", "bounds_shrink_below_sum"]
 
 IDS = frozenset({8, 18})
@@ -171,7 +171,13 @@ def scenario(sim: Sim) -> None:
                         sim.probe("error_result")
                     sim.fault("result_" + kindname)
                     st["last_event"] = "result_" + kindname
-                    h.send_result(kindname, greqs2[-1]["req"])
+                    # usually the result of the latest request, sometimes a late result of an older request
+                    # (the targets may have changed since that request was sent)
+                    back = 0
+                    if len(greqs2) > 1 and ch.chance("late_result_of_older_request", 0.35):
+                        back = 1 + ch.draw("how_old", min(3, len(greqs2) - 1))
+                        sim.probe("late_result_of_older_request")
+                    h.send_result(kindname, greqs2[-1 - back]["req"])
                     await asyncio.sleep(ch.choice("res_gap", [0.001, 0.05, 0.5]))
             else:
                 dt = ch.choice("dt_s", [0.3, 1.0, 5.0, 30.0, 59.5, 61.0, 63.0])
